@@ -136,12 +136,16 @@ func (s scen) call(ctx context.Context, w *World, srcM, dstM *memory.Store, faul
 			if w.Faults {
 				switch vs.ChooseAt(3, vs.KFault, kind+"("+nm+")") {
 				case AErrBefore:
-					w.Injected = append(w.Injected, kind+"("+nm+"):err")
-					w.NeededFault = true
+					w.Do(func() {
+						w.Injected = append(w.Injected, kind+"("+nm+"):err")
+						w.NeededFault = true
+					})
 					return fmt.Errorf("callback %s(%s): %w", kind, nm, ErrInjected)
 				case ACancel:
-					w.Injected = append(w.Injected, kind+"("+nm+"):cancel")
-					w.Cancelled = true
+					w.Do(func() {
+						w.Injected = append(w.Injected, kind+"("+nm+"):cancel")
+						w.Cancelled = true
+					})
 					w.Cancel(fmt.Errorf("cancel in %s(%s): %w", kind, nm, ErrInjected))
 				}
 			} else {
